@@ -167,7 +167,7 @@ def never_errs(facts, term, depth=2):
 
 
 def run_errdisc(facts, rule_name, description, is_external, body_filter=lambda b: True, finding_prefix="ERRDISC",
-                exempt_infallible_callee=False):
+                exempt_infallible_callee=False, exempt=None):
     """Generic driver.  is_external(err_type_str, body) -> bool."""
     rr = RuleResult(rule_name, description)
     for body in facts.body_list:
@@ -195,6 +195,11 @@ def run_errdisc(facts, rule_name, description, is_external, body_filter=lambda b
                 if ne is not None:
                     rr.ok(dict(sample, verdict="ok", uses=["exempt: resolved callee %s constructs no Err" % ne]),
                           trivial=True)
+                    continue
+            if exempt is not None:
+                why = exempt(body, bi, t)
+                if why:
+                    rr.ok(dict(sample, verdict="ok", uses=["exempt: " + why]))
                     continue
             tr = Tracker(facts, body, is_external)
             if dst["p"]:
